@@ -272,9 +272,10 @@ def pyStrip (t : List Nat) : List Nat := ((t.dropWhile pyIsSpace).reverse.dropWh
 def uriData (msg : List Nat) : List Nat :=
   if msg.contains 10 then ((msg.dropWhile (· != 10)).drop 1).takeWhile (· != 10) else pyStrip msg
 
-/-- `use_http_uri(message, "SAMLRequest", destination, relay_state)["url"]`: always `?` (this code
-    does not go through `add_query`). -/
-def uriUrl (msg dest rs : Bytes) : Bytes := dest ++ [63] ++ urlencode (withRelay (sID, msg) rs)
+/-- `use_http_uri(message, "SAMLRequest", destination, relay_state)["url"]`: the query goes through
+    `pack.add_query` like the redirect and artifact URLs (since f3123de0; before, `?` was glued on
+    whatever the destination already carried). -/
+def uriUrl (msg dest rs : Bytes) : Bytes := addQuery dest (urlencode (withRelay (sID, msg) rs))
 
 inductive UriInfo where
   | response (data : List Nat)     -- code points of `info["data"]`
